@@ -526,7 +526,7 @@ class MP4Tags(DictProxy, Tags):
             atom._dataoffset += delta
         # the payload starts after an 8 or (64 bit size) 16 byte header
         fileobj.seek(atom._dataoffset + 4)
-        data = fileobj.read(atom.datalength - 4)
+        data = fileobj.read(max(0, atom.datalength - 4))
         try:
             fmt = fmt % cdata.uint_be(data[:4])
             offsets = struct.unpack(fmt, data[4:])
@@ -542,7 +542,7 @@ class MP4Tags(DictProxy, Tags):
             atom._dataoffset += delta
         # the payload starts after an 8 or (64 bit size) 16 byte header
         fileobj.seek(atom._dataoffset + 1)
-        data = fileobj.read(atom.datalength - 1)
+        data = fileobj.read(max(0, atom.datalength - 1))
         try:
             flags = cdata.uint_be(b"\x00" + data[:3])
             if flags & 1:
